@@ -234,8 +234,49 @@ func GenPatternFor(r *core.Rand, paths []string, allowNeg bool) string {
 	return p
 }
 
+// genChain builds a nested chain over one existing path: a positive pattern
+// for an ancestor, a negation of something below it, a positive pattern again
+// below the negated part (and so on), optionally with trailing globs.
+func genChain(r *core.Rand, paths []string) []string {
+	var deep []string
+	for _, p := range paths {
+		if strings.Count(p, "/") >= 1 {
+			deep = append(deep, p)
+		}
+	}
+	if len(deep) == 0 {
+		return nil
+	}
+	parts := strings.Split(core.Pick(r, deep), "/")
+	var out []string
+	neg := false
+	for i := 1; i <= len(parts); i++ {
+		if i > 1 && r.P(1, 4) {
+			continue
+		}
+		p := strings.Join(parts[:i], "/")
+		switch r.Intn(6) {
+		case 0:
+			p += "/*"
+		case 1:
+			p += "/**"
+		}
+		if neg {
+			p = "!" + p
+		}
+		out = append(out, p)
+		neg = !neg
+	}
+	return out
+}
+
 // GenPatterns draws a list (possibly empty, possibly with duplicates).
 func GenPatterns(r *core.Rand, max int, allowNeg bool, paths ...string) []string {
+	if allowNeg && len(paths) > 0 && r.P(1, 6) {
+		if c := genChain(r, paths); len(c) > 0 {
+			return c
+		}
+	}
 	n := r.Intn(max + 1)
 	var out []string
 	for i := 0; i < n; i++ {
